@@ -26,7 +26,8 @@ REQUIRE = {'docs_srt': 20, 'docs_webvtt': 20, 'docs_dfxp': 20, 'docs_sami': 20, 
            'feature_hour>=24': 10, 'feature_frames': 5, 'feature_dur': 5, 'feature_shift': 5,
            'feature_fps-header': 5, 'feature_blank-sync': 5, 'feature_no-fraction': 3,
            'feature_strict-timing': 5, 'stamps_compared': 500,
-           'caption_init_rejections_checked': 5, 'feature_inline-lang-attribute': 3}
+           'caption_init_rejections_checked': 5, 'feature_inline-lang-attribute': 3,
+           'reads_by_a_reader_object_used_before': 100}
 NONTRIVIAL_FEATURES = {'hour>=24', 'hour>=1', 'no-fraction', 'no-hours', 'frames', 'dur', 'shift',
                        'fps-header', 'two-p-one-sync', 'empty-cue', 'strict-timing'}
 
@@ -38,7 +39,7 @@ def cases(ctx):
     fmts = sorted(docs.GENERATORS)
     for i in range(ctx.budget(12000, 400000)):
         fmt = fmts[i % len(fmts)]
-        yield docs.generate(fmt, rng, f'K{ctx.shard}.{i}', ctx)
+        yield docs.with_prior(docs.generate(fmt, rng, f'K{ctx.shard}.{i}', ctx), rng, f'K{ctx.shard}.{i}', ctx)
 
 
 def nontrivial(case):
@@ -86,7 +87,7 @@ def check(case, ctx):
     Reader = getattr(pycaption, docs.READERS[fmt])
     fails = []
     try:
-        cs = Reader(**case['reader_kwargs']).read(case['doc'], **case['read_kwargs'])
+        cs = docs.reader_for(case, Reader, ctx).read(case['doc'], **case['read_kwargs'])
     except Exception as e:
         return [{'what': 'reader raised on a well-formed document', 'format': fmt, 'error': repr(e)[:400]}]
     got_langs = cs.get_languages()
